@@ -27,6 +27,7 @@ Notation run_ops := (run_ops H program compile tpl).
 Notation Inv := (Inv H program compile tpl D).
 Notation hashed_in := (hashed_in H program compile tpl D).
 Notation hashed_now := (hashed_now H program tpl).
+Notation tainted := (tainted H program compile tpl).
 Notation dir := (dir program).
 Notation ver := (ver program).
 Notation dep := (dep program).
@@ -75,11 +76,45 @@ Theorem C08_fresh :
   (forall x, digest_ok (H x)) -> collision_free H D ->
   forall ops st, Inv st -> hashed_in ops st -> forall hashfast force gocache,
   let cur := run_ops ops st in
+  ~ In (exe_name H tpl (ver cur) (dir cur)) (tainted ops st) ->
   Forall D (hashed_now cur) -> dir cur <> [] ->
   exists c d fs, snd (step cur (Run hashfast force gocache)) = Ran program c (compile (ver cur) d fs) /\
                Permutation (contents fs) (contents (dir cur)) /\
                (c = true -> fs = dir cur /\ d = dep cur).
 Proof. exact (fresh H program compile tpl D). Qed.
+
+(* The hypothesis on [tainted]: histories may contain invocations RACED by an edit ([RunRaced]: a
+   magefile or an imported package changes after mage hashed the magefiles and before it runs the
+   binary; the go tool read the old or the new sources - both outcomes are in the model).  A raced
+   build that saw EDITED MAGEFILES leaves their program under the name of the contents that were
+   hashed: that name is [tainted] (a TOCTOU window the design has; an invocation of exactly those
+   old contents in hash mode would get the other program).  Every other name is unaffected; without
+   such a build nothing is tainted ... *)
+Theorem C08_no_race_no_taint : forall ops st, (forall o, In o ops -> taints o = false) -> tainted ops st = [].
+Proof. exact (tainted_nil H program compile tpl). Qed.
+
+(* ... and the invocation right after a raced one - of the NEW contents - is fresh whatever the
+   compiler of the raced build saw: the program was filed under the OLD name *)
+Theorem C08_next_after_raced_edit_fresh :
+  (forall x, digest_ok (H x)) -> collision_free H D ->
+  forall st, Inv st -> forall hf force gc f b seen_new hf' force' gc',
+  let st1 := fst (step st (RunRaced hf force gc (REdit f b) seen_new)) in
+  Forall D (hashed_now st) -> Forall D (hashed_now st1) -> dir st1 <> [] ->
+  ~ Permutation (contents (dir st1)) (contents (dir st)) ->
+  exists c d fs, snd (step st1 (Run hf' force' gc')) = Ran program c (compile (ver st1) d fs) /\
+               Permutation (contents fs) (contents (dir st1)) /\
+               (c = true -> fs = dir st1 /\ d = dep st1).
+Proof. exact (next_after_raced_edit_fresh H program compile tpl D). Qed.
+
+(* a design that files a raced build under the name of the contents found on disk AFTER the build
+   ([invoke_raced_f true], seeded change C08-8A) breaks exactly that: the compiler had read the old
+   magefiles, the next hash-mode invocation of the new contents runs the old program *)
+Theorem C08_rename_after_build_refuted : forall (st : state) force gc f b gc', dir st <> [] ->
+  Cache.lookup program (exe_name H tpl (ver st) (dir st)) (cache program st) = None ->
+  let st1 := fst (invoke_raced_f H program compile tpl true st true force gc (REdit f b) false) in
+  dir st1 = set_file f b (dir st) /\
+  snd (invoke st1 true false gc') = Ran program false (compile (ver st) (dep st) (dir st)).
+Proof. exact (settle_refuted H program compile tpl). Qed.
 
 (* if the go tool's output depends on the file contents only (file names matter to go build only
    through build constraints in names and initialisation order), it is the program of the current files *)
@@ -88,6 +123,7 @@ Theorem C08_fresh_exact :
   (forall v d a b, Permutation (contents a) (contents b) -> compile v d a = compile v d b) ->
   forall ops st, Inv st -> hashed_in ops st -> forall hashfast force gocache,
   let cur := run_ops ops st in
+  ~ In (exe_name H tpl (ver cur) (dir cur)) (tainted ops st) ->
   Forall D (hashed_now cur) -> dir cur <> [] ->
   exists c d, snd (step cur (Run hashfast force gocache)) = Ran program c (compile (ver cur) d (dir cur)) /\
               (c = true -> d = dep cur).
@@ -176,6 +212,9 @@ Print Assumptions C08_name_inj.
 Print Assumptions C08_name_tpl_confusable_before_repair_refuted.
 Print Assumptions C08_name_inj_before_repair_refuted.
 Print Assumptions C08_fresh.
+Print Assumptions C08_no_race_no_taint.
+Print Assumptions C08_next_after_raced_edit_fresh.
+Print Assumptions C08_rename_after_build_refuted.
 Print Assumptions C08_fresh_exact.
 Print Assumptions C08_hashed_in_history.
 Print Assumptions C08_inv_empty_cache.
